@@ -69,7 +69,16 @@ func (p *verifNetPeer) tick() {
 }
 
 func verifC01TwoAgents() {
-	nCand := 1 + verifTier()
+	// quick: 1 candidate per side, 3 adversarial steps; thorough: either 2 per
+	// side (4 pairs) with 2 steps or 1 per side with 4 steps
+	nCand, k := 1, 3
+	if verifTier() > 0 {
+		if verifChoice(2) == 0 {
+			nCand, k = 2, 2
+		} else {
+			nCand, k = 1, 4
+		}
+	}
 	wa := verifNewWorldCreds(true, false, "Aufr", "apassword", "Bufr", "bpassword")
 	wb := verifNewWorldCreds(false, false, "Bufr", "bpassword", "Aufr", "apassword")
 	for i := 0; i < nCand; i++ {
@@ -101,7 +110,6 @@ func verifC01TwoAgents() {
 	}
 
 	// adversarial prefix
-	k := 3 + verifTier()
 	for step := 0; step < k; step++ {
 		A.flush(B, ab)
 		B.flush(A, ba)
